@@ -2016,6 +2016,12 @@ static int64_t eval2_raw(Node *node, char ***label) {
     return eval2(node->lhs, label);
   case ND_ADDR:
     return eval_rval(node->lhs, label);
+  case ND_DEREF:
+    // An array designated by `*p` (e.g. a[1] of a two-dimensional
+    // array) decays to a pointer to its first element, which is `p`.
+    if (!label || node->ty->kind != TY_ARRAY)
+      error_tok(node->tok, "not a compile-time constant");
+    return eval2(node->lhs, label);
   case ND_LABEL_VAL:
     *label = &node->unique_label;
     return 0;
